@@ -19,7 +19,10 @@ is held, so 1-2 further executions are in flight on the next usable hosts; then 
 scripted decision (RETRY / RETRY_NEXT_HOST / RETHROW) is applied - the error belongs to the host that sent it.
 A fourth family lets the speculative timer fire while the CALLER is still inside send_request(): the first host it can
 pick is busy (borrowing blocks 2 s, longer than the speculative delay) or fails at send; plan order must hold all the same
-(that host is given up, the first healthy later host answers; NoHostAvailable only without one, listing every plan host).  Oracle: the hosts that received
+(that host is given up, the first healthy later host answers; NoHostAvailable only without one, listing every plan host).
+A fifth family judges the fetch of the SECOND page of a paged result (load-balanced and host=-targeted): page 1 is served
+healthily, the pool states apply to the page-2 fetch (for host= they are produced between the pages, including a pool
+that disappears); the reference per fetch is the same plan walk (plan rebuilt per fetch; targeted: that host only).  Oracle: the hosts that received
 the request (node-side trace) are exactly those a reference walk over (plan, states) visits, in that order; no host
 twice without a RETRY decision; the outcome is the first healthy host's row, or NoHostAvailable whose ``errors`` has
 an entry with a reason of the right kind for every host of the plan and which is raised only after the plan iterator
@@ -73,6 +76,12 @@ def all_cases():
                 for npost in range(0, 4 - npre):
                     for post in itertools.product(SPEC_STATES, repeat=npost):
                         cases.append(('specbusy', pre + (x,) + post))
+    # paged results: page 1 is served healthily, the pool states apply to the fetch of page 2 (plan rebuilt per fetch; host=: that host only)
+    for k in range(1, 4):
+        for seq in itertools.product(STATES, repeat=k):
+            cases.append(('paged', seq))
+    for s in STATES:
+        cases.append(('pagedhost', (s,)))
     return cases
 
 
@@ -139,7 +148,7 @@ def run_case(seed, mode, states):
     plan_addrs = ['127.0.0.%d' % (i + 1) for i in range(k)]
     order = rng.sample(plan_addrs, k)
     st_of = dict(zip(order, states))
-    bystanders = [CONTACT] + (['127.0.0.8'] if mode == 'host' else [])
+    bystanders = [CONTACT] + (['127.0.0.8'] if mode in ('host', 'pagedhost') else [])
     addrs = plan_addrs + bystanders
     proto = rng.choice([3, 4, 4, 0x42])
     class BoundedTimeChooser(W.RandomChooser):
@@ -163,8 +172,9 @@ def run_case(seed, mode, states):
         nd.behaviour = plan.behaviour
     lbp = C.make_fixed_plan_policy()
     missing_how = {}
+    deferred = mode == 'pagedhost'       # the targeted host must serve page 1: its state is applied between the pages
     for a, s in st_of.items():
-        if s == 'missing':
+        if s == 'missing' and not deferred:
             missing_how[a] = rng.choice(['down', 'ignored'])
             if missing_how[a] == 'down':
                 env.net.nodes[a].up = False
@@ -204,11 +214,25 @@ def run_case(seed, mode, states):
                     raise Inconclusive("host %s never reached the load-balancing policy" % a)
             for a in addrs:
                 has = hosts[a] in session._pools
-                if has != (st_of.get(a) != 'missing'):
+                if has != (st_of.get(a) != 'missing' or deferred):
                     raise Inconclusive("precondition: host %s (%s) pool present=%s" % (a, st_of.get(a), has))
-        nbusy = 0
-        for a in order:
+        def apply_states(which):
+          for a in which:
             s = st_of[a]
+            if s == 'missing' and deferred:
+                # the pool disappears between the pages: the server drops the connection and a (throw-away) statement runs into it,
+                # which marks the host down; the session shuts the pool down and removes it
+                pool = session._pools[hosts[a]]
+                env.net.server_close(pool._connection, reset=rng.random() < 0.5)
+                env.world.settle(advance=False)
+                env.net.nodes[a].up = False
+                tu = next_uid()
+                with env.world.inspect():
+                    rec.execute_async(session, tu, statement=SimpleStatement(uid_query(tu)), host=hosts[a], timeout=None)
+                env.world.settle(advance=False)
+                spent.add(a)
+                down_seen[0] = True
+                continue
             if s in ('missing', 'ok', 'err_next', 'err_same'):
                 continue
             pool = session._pools[hosts[a]]
@@ -226,17 +250,20 @@ def run_case(seed, mode, states):
                 env.world.settle(advance=False)
                 env.net.nodes[a].up = False      # no resurrection by a concurrent pool renewal once the failed send marked the host down
             elif s == 'busy':
-                nbusy += 1
                 conn = pool._connection
                 for _ in range(conn.max_request_id):
                     fu = next_uid()
                     plan.set(fu, 'hold')
                     rec.execute_async(session, fu, statement=SimpleStatement(uid_query(fu)), host=hosts[a], timeout=None)
             env.world.settle(advance=False)
-        with env.world.inspect():
-            for a in order:
+
+        def check_states(which):
+          with env.world.inspect():
+            for a in which:
                 s = st_of[a]
                 if s == 'missing':
+                    if deferred and not C.unusable_addresses(session, lbp, [a]):
+                        raise Inconclusive("precondition: the pool of %s did not disappear between the pages" % a)
                     continue
                 pool = session._pools.get(hosts[a])
                 okpre = pool is not None
@@ -253,10 +280,17 @@ def run_case(seed, mode, states):
                 if not okpre:
                     raise Inconclusive("precondition: could not put host %s into state %s" % (a, s))
 
-        def one_statement(tag, target, order_, states_):
-            """run one statement over (order_, states_) [plan mode] or against ``target`` [host mode] and judge it"""
+        if not deferred:
+            apply_states(order)
+            check_states(order)
+
+        def one_statement(tag, target, order_, states_, paged=False):
+            """run one statement over (order_, states_) [plan mode] or against ``target`` [host mode] and judge it.
+            paged: the first page is served by a healthy host first; what is judged is the fetch of the second page."""
             uid = next_uid()
             arrivals, outcome, reasons, decisions, nerr = reference(order_, states_)
+            if deferred:
+                reasons = dict((h_, 'unusable' if k_ == 'missing' else k_) for h_, k_ in reasons.items())
             reached = states_ if outcome[0] == 'nohost' else states_[:list(order_).index(outcome[1])]
             if 'sendfail' in reached:
                 down_seen[0] = True
@@ -266,12 +300,38 @@ def run_case(seed, mode, states):
             errs = [errgen.make(rng.choice(C.SERVER_KINDS)) for _ in range(nerr)]
             # if the driver goes on after the decisions end, the extra arrivals are answered with errors and RETHROW
             extra = [errgen.make('overloaded') for _ in range(3)]
-            plan.set(uid, [e['action'] for e in errs] + (['rows'] if outcome[0] == 'ok' else [e['action'] for e in extra]))
+            from sim.scen import ECHO_COLS
+            page1 = [lambda node, cstate, req, uid_: node.rows(cstate, req, ECHO_COLS, [[uid_, node.address]], 'ks', 't', paging_state=b'page-2')] if paged else []
+            plan.set(uid, page1 + [e['action'] for e in errs] + (['rows'] if outcome[0] == 'ok' else [e['action'] for e in extra]))
             pol = C.make_oracle_retry_policy(script=list(decisions) + ([(C.RETRY_NEXT_HOST, None)] * 2 if target is not None else []))
             stm = SimpleStatement(uid_query(uid), retry_policy=pol, consistency_level=rng.choice(C.CLS))
+            n_outs = n_att = 0
+            page1_problem = None
+            if paged:
+                with env.world.inspect():
+                    if target is None:
+                        lbp.order = [CONTACT]
+                        fut = rec.execute_async(session, uid, statement=stm, timeout=None)
+                    else:
+                        lbp.order = [a for a in addrs if a != target]
+                        fut = rec.execute_async(session, uid, statement=stm, timeout=None, host=hosts[target])
+                env.world.settle(advance=False)
+                with env.world.inspect():
+                    o1 = rec.outcomes(uid)
+                    if len(o1) != 1 or o1[0][0] != 'cb' or not fut.has_more_pages:
+                        page1_problem = 'first page: outcomes %r, has_more_pages=%r' % ([(o[0], repr(o[3])[:80]) for o in o1], fut.has_more_pages)
+                    n_outs, n_att = len(o1), len(fut.attempted_hosts)
+                if deferred and page1_problem is None:
+                    apply_states([target])
+                    check_states([target])
             m_seen, m_plans = len(plan.seen), len(lbp.plans)
             with env.world.inspect():      # callbacks registered before any answer can be processed
-                if target is None:
+                if page1_problem is not None:
+                    pass
+                elif paged:
+                    lbp.order = list(order_) if target is None else [a for a in addrs if a != target]
+                    fut.start_fetching_next_page()
+                elif target is None:
                     lbp.order = list(order_)
                     fut = rec.execute_async(session, uid, statement=stm, timeout=None)
                 else:
@@ -282,13 +342,16 @@ def run_case(seed, mode, states):
             lbp.order = None
             with env.world.inspect():
                 seen = [s_[0] for s_ in plan.seen[m_seen:] if s_[3] == uid]
-                outs = rec.outcomes(uid)
-                info = dict(seed=seed, statement=tag, proto=proto, mode='host' if target is not None else 'plan', plan=list(order_), states=list(states_),
+                outs = rec.outcomes(uid)[n_outs:]
+                info = dict(seed=seed, statement=tag, proto=proto, mode=('paged-' if paged else '') + ('host' if target is not None else 'plan'),
+                            plan=list(order_), states=list(states_),
                             missing_how=dict(missing_how), target=target, hosts_that_received=seen, expected_hosts=arrivals,
                             expected_outcome=outcome, outcome=[(o[0], repr(o[3])[:300]) for o in outs],
                             decisions=[(C.DECISION_NAMES[l['decision'][0]]) for l in pol.log])
                 v = []
-                if seen != arrivals:
+                if page1_problem is not None:
+                    v.append(('first-page-not-delivered', page1_problem))
+                elif seen != arrivals:
                     stray = [h for h in seen if h not in order_]
                     if stray:
                         v.append(('request-sent-to-host-outside-the-plan' if target is None else 'explicit-host-ignored',
@@ -307,7 +370,7 @@ def run_case(seed, mode, states):
                         else:
                             v.append(('hosts-not-tried-in-plan-order', 'hosts that received the request %r, reference walk %r' % (seen, arrivals)))
                 if not v:
-                    att = [h.address for h in (fut.attempted_hosts if fut is not None else [])]
+                    att = [h.address for h in (fut.attempted_hosts if fut is not None else [])][n_att:]
                     if sorted(att) != sorted(seen):      # the append races with the answer of a fast node: order is not promised
                         v.append(('attempted-hosts-differs-from-hosts-that-received-the-request', 'attempted_hosts %r, node-side %r' % (att, seen)))
                 if not v:
@@ -567,6 +630,10 @@ def run_case(seed, mode, states):
 
         if mode == 'plan':
             v = one_statement('main', None, order, list(states))
+        elif mode == 'paged':
+            v = one_statement('main', None, order, list(states), paged=True)
+        elif mode == 'pagedhost':
+            v = one_statement('main', order[0], order, list(states), paged=True)
         elif mode == 'specbusy':
             v = specbusy_statement()
         elif mode == 'spec':
@@ -634,8 +701,9 @@ def run(ctx):
         r = random.Random(base + (ctx.worker or 0))
         for _ in range(4000):
             key = r.choices([('plan', 0), ('plan', 1), ('plan', 2), ('plan', 3), ('plan', 4), ('host', 1), ('spec', 2), ('spec', 3), ('spec', 4),
-                             ('specbusy', 1), ('specbusy', 2), ('specbusy', 3), ('specbusy', 4)],
-                            [1, 8, 20, 30, 40, 12, 4, 8, 10, 1, 8, 10, 8])[0]
+                             ('specbusy', 1), ('specbusy', 2), ('specbusy', 3), ('specbusy', 4),
+                             ('paged', 1), ('paged', 2), ('paged', 3), ('pagedhost', 1)],
+                            [1, 8, 20, 30, 40, 12, 4, 8, 10, 1, 8, 10, 8, 4, 8, 10, 12])[0]
             todo.append((r.randrange(1 << 30), r.choice(by_len[key])))
     else:
         w, nw = (ctx.worker or 0), max(1, ctx.nworkers)
@@ -682,7 +750,9 @@ def run(ctx):
             ctx.count("statements_judged")
             ctx.count("hosts_that_received_compared", len(q['hosts_that_received']))
             ctx.count("errors_answered_by_nodes", q.get('errors_answered', 0))
-            if q['mode'] == 'host':
+            if q['mode'].startswith('paged'):
+                ctx.count("second_page_fetches_judged")
+            if q['mode'].endswith('host'):
                 ctx.count("explicit_host_statements")
             if q['mode'] == 'spec':
                 ctx.count("speculative_statements_decision_" + q['decision'])
@@ -707,4 +777,5 @@ def run(ctx):
     ctx.floor_counters = {"statements_judged": 200, "hosts_that_received_compared": 200, "no_host_available_outcomes_checked": 60,
                           "explicit_host_statements": 60, "state_busy": 30, "state_sendfail": 30, "state_missing": 30, "state_shut": 30,
                           "state_noconn": 30, "state_err_next": 30, "state_err_same": 30, "speculative_statements": 25,
-                          "speculative_timer_while_caller_in_send_request_statements": 25}
+                          "speculative_timer_while_caller_in_send_request_statements": 25,
+                          "second_page_fetches_judged": 40}
